@@ -177,6 +177,7 @@ class Spinner:
         self._junk = []
         self._debug = debug
         self._spinning = False
+        self._current_run = None
 
     def _cancel_timeout(self):
         if self._timeout_call:
@@ -314,16 +315,30 @@ class Spinner:
             # Twisted's signal handlers.
             real_stop, self._reactor.stop = self._reactor.stop, self._fake_stop
 
+            this_run = self._current_run = object()
+
+            def if_current(callback):
+                # The Deferred of an earlier run that timed out or was
+                # interrupted may still fire: it must not decide this run.
+                def guarded(result):
+                    if self._current_run is this_run:
+                        return callback(result)
+
+                return guarded
+
             def run_function():
                 d = defer.maybeDeferred(function, *args, **kwargs)
-                d.addCallbacks(self._got_success, self._got_failure)
-                d.addBoth(self._stop_reactor)
+                d.addCallbacks(
+                    if_current(self._got_success), if_current(self._got_failure)
+                )
+                d.addBoth(if_current(self._stop_reactor))
 
             try:
                 self._reactor.callWhenRunning(run_function)
                 self._spinning = True
                 self._reactor.run()
             finally:
+                self._current_run = None
                 self._reactor.stop = real_stop
                 self._restore_signals()
             try:
